@@ -181,6 +181,57 @@ def idStar (ordf : List World → List World) (dordf : List Var → List Var) (G
     Except Err Expr :=
   idStarFuel ordf dordf G (idStarFuelBound G ev) ev
 
+
+/-! ### decidable tests of the fragments on which soundness is proved (Props/C07.lean); the harness asks the driver for them -/
+
+/-- the subscript set of the first key (the world of a single-world event) -/
+def worldB (ev : Event) : World :=
+  match ev with
+  | [] => []
+  | p :: _ => p.1.ivs
+
+/-- the polarity the event gives the variable named `n` (starred iff some key over `n` has a starred value) -/
+def starOf (ev : Event) : Name → Bool := fun n => ev.any fun p => p.1.name == n && p.2.star
+
+/-- fragment 1 (`InFragment`): one subscript set, unstarred values and subscripts -/
+def inFragmentB (G : MG Name) (ev : Event) : Bool :=
+  match ev with
+  | [] => true
+  | p :: _ =>
+    decide (ev.keys.Nodup) &&
+    ev.all (fun q => decide (q.2 = ⟨q.1.name, false⟩) && decide (q.1.star = none) && !q.1.isIv &&
+      decide (q.1.name ∈ G.nodes) && decide (q.1.ivs = p.1.ivs)) &&
+    p.1.ivs.all (fun i => !i.star)
+
+def consistentB (S : List Iv) : Bool := S.all fun i => S.all fun j => decide (i.name = j.name → i = j)
+
+/-- `Clean2`: if line 6 fires, no starred-valued key is a parent (in `G`) of a non-self-intervened node of the counterfactual
+graph and no node of the graph is self-intervened on a starred subscript -/
+def cleanB (ordf : List World → List World) (G : MG Name) (w : World) (s : Name → Bool) (ev : Event) : Bool :=
+  match makeCounterfactualGraph ordf G ev with
+  | .ok (g, some nev) =>
+    match isConnected (nsiSubgraph g) with
+    | .ok false =>
+      nev.all (fun q => !(s q.1.name) || (nsiSubgraph g).nodes.all (fun n => decide ((q.1.name, n.name) ∉ G.di))) &&
+      g.nodes.all (fun n => isNotSelfIntervened n || w.all (fun i => decide (i.name = n.name → i.star = false)))
+    | _ => true
+  | _ => true
+
+/-- fragment 2 (`InFragment2`): one subscript set, any polarity, line 6 keeps the polarities -/
+def inFragment2B (ordf : List World → List World) (G : MG Name) (ev : Event) : Bool :=
+  decide (ev.keys.Nodup) &&
+  ev.all (fun q => decide (q.2 = ⟨q.1.name, starOf ev q.1.name⟩) && decide (q.1 = atWorld q.1.name (worldB ev)) &&
+    decide (q.1.name ∈ G.nodes)) &&
+  consistentB (worldB ev) &&
+  (violatesEffectiveness ev || cleanB ordf G (worldB ev) (starOf ev) (removeTautologies ev))
+
+/-- single-world events (`OneWorld`) -/
+def oneWorldB (G : MG Name) (ev : Event) : Bool :=
+  decide (ev.keys.Nodup) &&
+  ev.all (fun q => decide (q.2 = ⟨q.1.name, starOf ev q.1.name⟩) && decide (q.1 = atWorld q.1.name (worldB ev)) &&
+    decide (q.1.name ∈ G.nodes)) &&
+  consistentB (worldB ev)
+
 /-- the orders of district nodes used by the correspondence: sorted by `_variable_sort_key`, or reversed -/
 def orderDistrict (rev : Bool) (d : List Var) : List Var :=
   let s := sortBy Var.keyLt d
